@@ -738,17 +738,25 @@ type c19HB struct {
 	DelayUs [2]int  `json:"delayus"`
 	Side    int     `json:"side"`
 	WithTx  bool    `json:"withtx"`
+	// PeerPending: the probed peer has called Shutdown() with data of its own that never gets
+	// through (SHUTDOWN-PENDING): it is still an association and still has to answer
+	PeerPending bool `json:"peerpending,omitempty"`
 }
 
 func genC19HB(rt *rapid.T) c19HB {
 	return c19HB{IL: [2]bool{rapid.Bool().Draw(rt, "ila"), rapid.Bool().Draw(rt, "ilb")}, ZC: [2]bool{rapid.Bool().Draw(rt, "zca"), rapid.Bool().Draw(rt, "zcb")},
-		DelayUs: [2]int{rapid.IntRange(100, 400000).Draw(rt, "da"), rapid.IntRange(100, 400000).Draw(rt, "db")}, Side: rapid.IntRange(0, 1).Draw(rt, "side"), WithTx: rapid.Bool().Draw(rt, "withtx")}
+		DelayUs: [2]int{rapid.IntRange(100, 400000).Draw(rt, "da"), rapid.IntRange(100, 400000).Draw(rt, "db")}, Side: rapid.IntRange(0, 1).Draw(rt, "side"), WithTx: rapid.Bool().Draw(rt, "withtx"),
+		PeerPending: rapid.IntRange(0, 2).Draw(rt, "peerpending") == 0}
 }
 
 func runC19HB(t *testing.T, x c19HB, verbose bool) (c vfCase) {
 	var sc vfE1
 	sc.Cfg[0] = vfSideCfg{IL: x.IL[0], ZC: x.ZC[0], TSN: 100}
 	sc.Cfg[1] = vfSideCfg{IL: x.IL[1], ZC: x.ZC[1], TSN: 200}
+	if x.PeerPending {
+		// nothing the peer writes ever arrives
+		sc.Faults.Rules = append(sc.Faults.Rules, vfRule{Side: 1 - x.Side, Kind: "type", Type: wtDATA, J: 100000}, vfRule{Side: 1 - x.Side, Kind: "type", Type: wtIDATA, J: 100000})
+	}
 	out := vfRunE1(t, &sc, vfE1Opts{verbose: verbose,
 		preHS: func(s *vfSim) {
 			s.net.baseDelay = [2]time.Duration{time.Duration(x.DelayUs[0]) * time.Microsecond, time.Duration(x.DelayUs[1]) * time.Microsecond}
@@ -758,6 +766,18 @@ func runC19HB(t *testing.T, x c19HB, verbose bool) (c vfCase) {
 			if x.WithTx {
 				s.doWrite(x.Side, 1, 100, 53)
 				s.o.settle(3 * time.Second)
+			}
+			if x.PeerPending {
+				b := s.as[1-x.Side]
+				s.doWrite(1-x.Side, 3, 50, 53)
+				s.o.settle(5 * time.Millisecond)
+				s.spawn("shutdown", 1-x.Side, func() error { return b.Shutdown(contextBackground()) })
+				s.o.settle(time.Millisecond)
+				if st := b.getState(); st != shutdownPending {
+					c.fail("not-shutdown-pending", "peer state %s", getAssociationStateString(st))
+					return
+				}
+				c.class("peer-in-shutdown-pending")
 			}
 			before := a.SRTT()
 			n0 := len(s.net.wire)
